@@ -122,5 +122,8 @@ func (p *Pool) Close() {
 	for _, pp := range p.all {
 		_ = pp.in.Close()
 		_ = pp.cmd.Wait()
+		if pp.cmd.Process != nil {
+			_ = os.RemoveAll(fmt.Sprintf("/dev/shm/rigomc-%d", pp.cmd.Process.Pid))
+		}
 	}
 }
